@@ -231,9 +231,21 @@ fn exec_c09(sc: &Scenario, mode_run: bool, jseed: u64) -> Out {
         let sys = System::current();
         let mut slots = vec![];
         let mut early = vec![];
-        for k in &kinds2 {
+        // "immediate" flavour: the first stop, when it comes from the system thread before `run`,
+        // is issued in the very next statement after the last `Arbiter::new()` returned — the
+        // tightest race between that arbiter's `Register` and the `Exit`
+        let immediate = jseed % 3 == 0
+            && sys_issuers.first().map(|x| x.0 == 0 && x.1.origin == Origin::SysPre).unwrap_or(false);
+        let mut immediate_done = false;
+        let nk = kinds2.len();
+        for (ki, k) in kinds2.iter().enumerate() {
             jitter(&mut rng_sys);
             let arb = Arbiter::new();
+            if immediate && ki + 1 == nk {
+                System::current().stop_with_code(sys_issuers[0].1.code);
+                let _ = sys_issuers[0].3.send(());
+                immediate_done = true;
+            }
             let handle = arb.handle();
             let ended = Arc::new(AtomicBool::new(false));
             let g = Guard(ended.clone());
@@ -272,7 +284,10 @@ fn exec_c09(sc: &Scenario, mode_run: bool, jseed: u64) -> Out {
             slots.push(ArbSlot { arb, handle, ended });
         }
         let _ = setup_tx.send((sys.clone(), slots, early));
-        for (_i, s, gate, ack) in sys_issuers {
+        for (i, s, gate, ack) in sys_issuers {
+            if i == 0 && immediate_done {
+                continue;
+            }
             match s.origin {
                 Origin::SysPre => {
                     // blocks the system thread until the director opens the gate
